@@ -195,7 +195,7 @@ fn triage(case: &Case, errs: &[RustcError], bindings: &str, st: &mut Stats) {
     let opts: String = [has("--with-derive-partialord"), has("--with-derive-ord"), has("--with-derive-partialeq"), has("--with-derive-eq"), has("--impl-debug"), has("--impl-partialeq"), has("--explicit-padding"), newtype, has("--no-derive-copy"), has("--c-naming"), case.flags.windows(2).any(|w| w[0] == "--default-enum-style" && (w[1].starts_with("newtype") || w[1] == "bitfield")) || case.flags.iter().any(|f| f.starts_with("--bitfield-enum") || f.starts_with("--newtype-enum") || f.starts_with("--newtype-global-enum")),
         case.flags.windows(2).any(|w| w[0] == "--default-enum-style" && w[1] == "moduleconsts") || case.flags.iter().any(|f| f.starts_with("--constified-enum-module")),
         case.flags.windows(2).any(|w| w[0] == "--default-non-copy-union-style" && w[1] == "manually_drop"),
-        has("--flexarray-dst"), has("--represent-cxx-operators")].iter().map(|b| if *b { '1' } else { '0' }).collect();
+        has("--flexarray-dst"), has("--represent-cxx-operators"), has("--enable-cxx-namespaces") && has("--disable-name-namespacing")].iter().map(|b| if *b { '1' } else { '0' }).collect();
     let h = &case.header;
     let compact: String = h.split_whitespace().collect::<Vec<_>>().join(" ");
     let empty_union = regex_like_empty(&compact, "union");
